@@ -28,10 +28,11 @@
    body = (0) nil | (1 z) int64 | (2 bits) float64 | (3 #s) string | (4 #b) []byte
         | (5 #marshalled) proto.Message | (9) other
    r*   = (1 value) | (2) panicked           hdr = (cmd seq typ flg node (refer ...))
-   Float conversions and strconv float text are oracles: the observed value is fed to the model,
-   so only the panic/no-panic shape of those outputs is compared. *)
+   Float conversions are computed by the model (Lib/Float.v) and compared; strconv's float text,
+   protojson text and the platform-defined results of int64(float64) out of range are oracles:
+   the observed value is fed to the model, so only panic/no-panic is compared for those. *)
 From Coq Require Import ZArith List Bool.
-From FV Require Import Generated.Consts Lib.Sx Lib.Wrap Lib.LE Lib.Varint Lib.Dec C07.Model.
+From FV Require Import Generated.Consts Lib.Sx Lib.Wrap Lib.LE Lib.Varint Lib.Dec Lib.Float C07.Model.
 Import ListNotations.
 Open Scope Z_scope.
 
@@ -124,19 +125,26 @@ Definition in_int64 (z : Z) : bool := (- 2 ^ 63 <=? z) && (z <? 2 ^ 63).
 (* ---- scenario 0: SetBody + accessors ------------------------------------------------ *)
 Definition check_body (g : gov) (wide : Z) (ob : option body)
            (ri rf : option Z) (rs rb : option (list Z)) : verdict :=
-  let o := mkOr (fun _ => wide)
-                (fun _ => match ri with Some v => v | None => 0 end)
-                (fun _ => match rf with Some v => v | None => 0 end)
-                (fun _ => match rs with Some v => v | None => [] end)
-                (fun _ => rf)
-                (fun _ => match rs with Some v => v | None => [] end) in
+  (* hardware conversions are computed by the model; only the platform-defined int64(float64)
+     results and strconv / protojson text are taken from the observation *)
+  let o := go_oracles (fun _ => match ri with Some v => v | None => 0 end)
+                      (fun _ => match rs with Some v => v | None => [] end)
+                      (fun _ => rf)
+                      (fun _ => match rs with Some v => v | None => [] end) in
   let b := set_body o g in
+  (* the widening datum the harness attached to the input is what the model computes *)
+  let wide_ok := match g with
+                 | GF32 bits => widen32 bits =? wide
+                 | GBytes l => if Nat.eqb (length l) 4 then widen32 (le_get l) =? wide else true
+                 | _ => true
+                 end in
   let corr :=
-    vjoin (check_that (obody_eqb b ob) (VMismatch 1))
+    vjoin (check_that wide_ok (VMismatch 22))
+   (vjoin (check_that (obody_eqb b ob) (VMismatch 1))
    (vjoin (check_that (oz_eqb (body_to_int o b) ri) (VMismatch 2))
    (vjoin (check_that (oz_eqb (body_to_float o b) rf) (VMismatch 3))
    (vjoin (check_that (ol_eqb (Some (body_to_string o b)) rs) (VMismatch 4))
-          (check_that (ol_eqb (Some (body_to_bytes b)) rb) (VMismatch 5))))) in
+          (check_that (ol_eqb (Some (body_to_bytes b)) rb) (VMismatch 5)))))) in
   (* the property on the implementation's outputs *)
   let readback :=
     match g with
@@ -183,7 +191,7 @@ Definition check_body (g : gov) (wide : Z) (ob : option body)
 
 (* ---- scenario 3: across the wire ---------------------------------------------------- *)
 Definition no_oracle (wide : Z) : oracles :=
-  mkOr (fun _ => wide) (fun _ => 0) (fun _ => 0) (fun _ => []) (fun _ => None) (fun _ => []).
+  go_oracles (fun _ => 0) (fun _ => []) (fun _ => None) (fun _ => []).
 
 Definition check_wire (codec thr : Z) (enc : bool) (h : hdr) (ec : option Z) (g : gov) (wide : Z)
            (obs : option (hdr * option body * Z * option (list Z) * option (hdr * option body))) : verdict :=
